@@ -79,6 +79,15 @@ func statelessPass(iters int) {
 	}
 	richCreate := &didtypes.MsgCreateDIDRequest{Did: richDID, Document: &rich, VerificationMethodId: vm1.Id, Signature: richSig, FromAddress: A.Bech}
 	richUpdate := &didtypes.MsgUpdateDIDRequest{Did: richDID, Document: &rich, VerificationMethodId: vm1.Id, Signature: richSig, FromAddress: A.Bech}
+	// a document that validation REFUSES (a method without key type): refusing must not touch it either
+	noTypeVM := didtypes.NewVerificationMethod(richDID+"#key9", "", richDID, richKey.PubKey().Bytes())
+	noType := didtypes.NewDIDDocument(richDID, didtypes.WithVerificationMethods([]*didtypes.VerificationMethod{&vm1, &noTypeVM}),
+		didtypes.WithAuthentications([]didtypes.VerificationRelationship{didtypes.NewVerificationRelationship(vm1.Id)}))
+	noTypeSig, err := didtypes.Sign(&noType, 0, richKey)
+	if err != nil {
+		panic(err)
+	}
+	wantNoType := append([]byte{}, noType.GetSignBytes()...)
 	wantDocBytes := append([]byte{}, rich.GetSignBytes()...) // taken before any validation call
 	wantCreate := append([]byte{}, richCreate.GetSignBytes()...)
 	wantUpdate := append([]byte{}, richUpdate.GetSignBytes()...)
@@ -127,6 +136,11 @@ func statelessPass(iters int) {
 				_ = rich.Valid()
 				if !bytes.Equal(rich.GetSignBytes(), wantDocBytes) || !bytes.Equal(richCreate.GetSignBytes(), wantCreate) || !bytes.Equal(richUpdate.GetSignBytes(), wantUpdate) {
 					fmt.Println("SNAPSHOT VIOLATION: the sign bytes of a shared DID document / message changed while other goroutines validated it (validation writes to its input)")
+					os.Exit(1)
+				}
+				_ = noType.Valid()
+				if _, ok := didtypes.Verify(noTypeSig, &noType, 0, richKey.PubKey()); !ok || !bytes.Equal(noType.GetSignBytes(), wantNoType) {
+					fmt.Println("SNAPSHOT VIOLATION: validating a (refused) shared DID document changed it: a proof made before validation no longer verifies")
 					os.Exit(1)
 				}
 				if _, ok := didtypes.Verify(richSig, &rich, 0, richKey.PubKey()); !ok {
